@@ -71,19 +71,26 @@ func (u *Unit) paramVal(st *State, name string, t types.Type) Val {
 	}
 	u.sliceFacts(st, v)
 	// struct-valued parameter: its reference members are allocated, its slices well-formed
-	if si := u.reg.structInfoOf(srt); si != nil {
-		for _, f := range si.fields {
-			acc := fmt.Sprintf("(%s_%s %s)", srt, sanitize(f.name), nm)
-			if f.sort == "Int" && u.isRefType(f.typ) {
-				st.assume("(>= " + acc + " 0)")
-				st.assume("(<= " + acc + " " + st.alloc + ")")
-			}
-			if u.reg.isSlice(f.sort) {
-				st.assume("(>= (len_" + f.sort + " " + acc + ") 0)")
-			}
-		}
-	}
+	u.structMemberFacts(st, srt, nm, 0)
 	return v
+}
+
+func (u *Unit) structMemberFacts(st *State, srt, term string, depth int) {
+	si := u.reg.structInfoOf(srt)
+	if si == nil || depth > 3 {
+		return
+	}
+	for _, f := range si.fields {
+		acc := fmt.Sprintf("(%s_%s %s)", srt, sanitize(f.name), term)
+		if f.sort == "Int" && u.isRefType(f.typ) {
+			st.assume("(>= " + acc + " 0)")
+			st.assume("(<= " + acc + " " + st.alloc + ")")
+		}
+		if u.reg.isSlice(f.sort) {
+			st.assume("(>= (len_" + f.sort + " " + acc + ") 0)")
+		}
+		u.structMemberFacts(st, f.sort, acc, depth+1)
+	}
 }
 
 // VerifyFunc symbolically executes a function and collects its obligations.
